@@ -130,9 +130,14 @@ class DefaultFunctionEstimator(FunctionEstimator):
         functions = np.nan_to_num(functions)
         norm, mean, stddev = self._mean_stddev(functions, weights)
         mean_gradient = np.dot(gradient, weights)
+        # The standard deviation vanishes if the realizations are equal up to
+        # rounding, this is relative to the magnitude of the function values:
+        vanishes = stddev <= 16 * np.finfo(np.float64).eps * np.max(
+            np.abs(functions), initial=0.0
+        )
         return (
             np.zeros(mean_gradient.shape, dtype=np.float64)
-            if np.allclose(np.abs(stddev), 0.0)
+            if vanishes
             else (
                 (norm / stddev)
                 * (np.dot(gradient, functions * weights) - mean * mean_gradient)
